@@ -399,6 +399,83 @@ def history(draw):
     return case
 
 
+# --------------------------------------------------------------------------------------- group address histories
+def judge_group_history(case) -> Verdict:
+    """An Address that is a group reference with member networks: queries of every derived list, member edits in
+    place (line of a member, append, pop), queries again - every list describes the CURRENT members."""
+    from cisco_acl import Address
+
+    members = [[b & ALL1, w & ALL1] for b, w in case["members"]]
+    if not members or any(len(R.nc_bits(w)) > 4 for _, w in members):
+        raise Invalid()
+    obj = Address("object-group G1", items=[f"{R.int2ip(b & ~w & ALL1)} {R.int2ip(w)}" for b, w in members])
+    v = Verdict()
+    edited = False
+    for step, op in enumerate(case["ops"]):
+        name = op[0]
+        if name == "query":
+            want = sorted(x for b, w in members for x in R.pair_prefixes((b & ~w & ALL1, w)))
+            nets = obj.ipnets()
+            got = sorted((int(n.network_address), n.prefixlen) for n in nets)
+            if got != want:
+                v.fail("group-hist:ipnets", {"step": step, "members": [o.line for o in obj.items], "trace": case["ops"][: step + 1]})
+                return v
+            if sorted(obj.prefixes()) != sorted(str(n) for n in nets):
+                v.fail("group-hist:prefixes-differ-from-ipnets", {"step": step, "prefixes": obj.prefixes()[:6],
+                                                                  "ipnets": [str(n) for n in nets][:6], "trace": case["ops"][: step + 1]})
+                return v
+            if sorted(obj.subnets()) != sorted(f"{n.network_address} {n.netmask}" for n in nets):
+                v.fail("group-hist:subnets-differ-from-ipnets", {"step": step, "trace": case["ops"][: step + 1]})
+                return v
+            if sorted(obj.wildcards()) != sorted(f"{R.int2ip(b & ~w & ALL1)} {R.int2ip(w)}" for b, w in members):
+                v.fail("group-hist:wildcards", {"step": step, "got": obj.wildcards()[:6], "trace": case["ops"][: step + 1]})
+                return v
+            if edited:
+                v.nt()
+        elif name == "line":
+            i = op[1] % len(members)
+            nb, nw = op[2] & ALL1, op[3] & ALL1
+            if len(R.nc_bits(nw)) > 4:
+                raise Invalid()
+            obj.items[i].line = f"{R.int2ip(nb & ~nw & ALL1)} {R.int2ip(nw)}"
+            members[i] = [nb, nw]
+            edited = True
+        elif name == "append":
+            nb, nw = op[1] & ALL1, op[2] & ALL1
+            if len(R.nc_bits(nw)) > 4:
+                raise Invalid()
+            obj.items.append(Address(f"{R.int2ip(nb & ~nw & ALL1)} {R.int2ip(nw)}"))
+            members.append([nb, nw])
+            edited = True
+        elif name == "pop":
+            if len(members) > 1:
+                obj.items.pop()
+                members.pop()
+                edited = True
+        else:
+            raise Invalid()
+    v.label("group-address", f"members={min(len(members), 5)}")
+    return v
+
+
+@st.composite
+def group_history(draw):
+    members = [draw(small_pair()) for _ in range(draw(st.integers(1, 3)))]
+    ops = [["query"]] if draw(st.booleans()) else []
+    for _ in range(draw(st.integers(1, 6))):
+        kind = draw(st.sampled_from(["query", "query", "line", "line", "append", "pop"]))
+        if kind == "line":
+            p = draw(small_pair())
+            ops.append(["line", draw(st.integers(0, 3)), p[0], p[1]])
+        elif kind == "append":
+            p = draw(small_pair())
+            ops.append(["append", p[0], p[1]])
+        else:
+            ops.append([kind])
+    ops.append(["query"])
+    return {"members": members, "ops": ops}
+
+
 SUBS = [
     Sub("lowbits", judge_single, enum=enum_low_bits, quick=1, thorough=1, shards_quick=16, shards_thorough=32,
         exhaustive=True, exhaustive_quick=True),
@@ -406,6 +483,7 @@ SUBS = [
         exhaustive=True, exhaustive_quick=True),
     Sub("random", judge_single, strategy=lambda tier: random_single(), quick=3000, thorough=150000),
     Sub("history", judge_history, strategy=lambda tier: history(), quick=2500, thorough=150000),
+    Sub("group-history", judge_group_history, strategy=lambda tier: group_history(), quick=800, thorough=40000),
 ]
 
 
